@@ -1,0 +1,11 @@
+//go:build !verif
+
+package opshell
+
+/*
+ * verif_off.go
+ * Verification hook points, compiled out
+ */
+
+// verifYield is a no-op unless built with -tags verif.
+func verifYield(string) {}
